@@ -49,9 +49,9 @@ void transform_stub (uint64_t *state, const unsigned char block[128])
 {
   XV_STUBPRE ("C16", 128 * G_NBLK + 128 <= G_PADLEN, "no more blocks than the padded message has");
   if (XV_SAME_OBJ (block, G_MSG))
-    XV_STUBPRE ("C16", block == G_MSG + 128 * G_NBLK, "blocks taken from the message are the next ones, in order");
+    XV_STUBPRE ("C16,C03", block == G_MSG + 128 * G_NBLK, "blocks taken from the message are the next ones, in order");
   else if (g_j >= 128 * G_NBLK && g_j < 128 * G_NBLK + 128)
-    XV_STUBPRE ("C16", block[g_j - 128 * G_NBLK] == G_MSG[g_j],
+    XV_STUBPRE ("C16,C03", block[g_j - 128 * G_NBLK] == G_MSG[g_j],
                 "the buffered block equals the corresponding block of the padded message (arbitrary byte)");
   XV_STUBPRE ("C16", state[0] == G_STATE[G_NBLK][0] && state[1] == G_STATE[G_NBLK][1] && state[2] == G_STATE[G_NBLK][2] && state[3] == G_STATE[G_NBLK][3]
               && state[4] == G_STATE[G_NBLK][4] && state[5] == G_STATE[G_NBLK][5] && state[6] == G_STATE[G_NBLK][6] && state[7] == G_STATE[G_NBLK][7],
@@ -127,7 +127,7 @@ void harness (void)
   g_end = off + n;
   XV_ASSUME (R (ctx, off));
   SHA512_Update (ctx, G_MSG + off, n);
-  XV_ASSERT ("C16", R (ctx, off + n),
+  XV_ASSERT ("C16,C03", R (ctx, off + n),
              "Update (msg + off, n) takes the representation of the first off bytes to that of the first off + n bytes, for any off and n: chunking-independent");
   XV_CANARY ("update");
   if ((off & 127) && n >= 128 - (off & 127)) XV_CANARY ("update completes a buffered block");
